@@ -7,6 +7,7 @@
 import Basyx.Lemmas.Failsafe
 import Basyx.Gen.JsonTable
 import Basyx.Gen.XmlTable
+import Basyx.Model.Select
 namespace Basyx.C09
 open Basyx.Codec
 
@@ -115,5 +116,30 @@ def damaged : DWire := .obj (some "Submodel") [("id", .bad .value)]
 example : survivors Gen.Json.jsonTable (jsonCfg true) [damaged, good] = survivors Gen.Json.jsonTable (jsonCfg true) [good] := by
   rfl
 example : (survivors Gen.Json.jsonTable (jsonCfg true) [good]).length = 1 := by rfl
+
+/-! ### Mode selection: `failsafe=` / `stripped=` reach the reader that has these modes
+
+The theorems above are about a reader *configuration* `Cfg` with a `failsafe` flag.  Which configuration the file-level
+functions (`read_aas_json_file[_into]`, `read_aas_xml_file[_into]`, `read_aas_xml_element`) run with is decided by
+`_select_decoder(failsafe, stripped, decoder)`; its decision table and the class-level flags of the decoder classes are
+regenerated from the source on every run (`Gen/Select.lean`). -/
+
+/-- **Mode selection** (re-checked against `_select_decoder` / `_select_encoder` and the class bodies on every run): for every
+    combination of the parameters a class is returned, and the class returned for (failsafe, stripped) has - by attribute lookup
+    along its method resolution order - exactly `failsafe = failsafe` and `stripped = stripped`. -/
+theorem c09_mode_selection : Select.selectOk = true ∧ Select.selectTotal = true := by decide
+
+/-- ... stated for the single row: whatever `_select_decoder` returns for the arguments has the modes asked for -/
+theorem c09_selected_has_mode {m : String} {f : Option Bool} {s : Bool} {c : String}
+    (hm : (m, f, s, c) ∈ Gen.Select.select) :
+    Select.flag false m c = some s ∧ ∀ b, f = some b → Select.flag true m c = some b := by
+  have := (List.all_eq_true.1 c09_mode_selection.1) _ hm
+  simp only [Bool.and_eq_true, beq_iff_eq] at this
+  refine ⟨this.1, ?_⟩
+  intro b hb; subst hb; simpa using this.2
+
+example : ("xml-dec", some false, true, "StrictStrippedAASFromXmlDecoder") ∈ Gen.Select.select := by decide
+example : Select.flag true "xml-dec" "StrictStrippedAASFromXmlDecoder" = some false ∧
+    Select.flag false "xml-dec" "StrictStrippedAASFromXmlDecoder" = some true := by decide
 
 end Basyx.C09
